@@ -30,6 +30,7 @@ fn eval(op: &str, args: &[&str]) -> Option<Vec<String>> {
         "codec" => c03::codec(args),
         "estep" => c03::estep(args),
         "wire" => c03::wire(args),
+        "wire2" => c03::wire2(args),
         "parse" => c15::parse(args),
         "rr" => c15::rr(args),
         "sinfo" => c15::sinfo(args),
